@@ -272,6 +272,20 @@ theorem compose_planar_ok_iff (n : Nat) (S rows : List BVec) (sym clu : BVec) (h
     ftpOk S rows (composePlanar n sym clu) = true ↔ synd S clu = xorV (xorAll S.length rows) (synd S sym) :=
   compose_ok_iff n S rows sym clu hsym hclu hS hrl
 
+/-- the custom values are bits: with the stage outputs computed from ANY clusters and cluster matches (the
+    parameters that the unmodelled matching supplies) by `_recovery_tparities` / `_cluster_recovery_tparities`, every
+    entry of `custom_values` is 0 or 1 -/
+theorem time_parities_are_bits (R C T : Int) (itp : Bool) (clusters : List (List TIdx))
+    (cmatches : List ((TIdx × TIdx) × (TIdx × TIdx))) (sm : Option (List BVec)) (sym clu : Stage) (res : Result)
+    (hs : recoveryTparities R C T clusters = some sym) (hc : clusterRecoveryTparities R C T cmatches = some clu)
+    (h : composeToric R C itp T sym clu sm = .ok res) : ∀ v ∈ res.cv, v ≤ 1 := by
+  have h1 := recoveryTparities_bits R C T clusters sym hs
+  have h2 := clusterRecoveryTparities_bits R C T cmatches clu hc
+  unfold composeToric at h
+  refine (finalize_spec R C itp T _ _ _ sm res h).2.2.2.2 ?_ ?_
+  · rw [Nat.zero_xor]; exact xor_le_one _ _ h1.1 h2.1
+  · rw [Nat.zero_xor]; exact xor_le_one _ _ h1.2 h2.2
+
 /-! ## the monitor -/
 
 /-- **`recoveryOk_sound`**: for a target `s` that is the syndrome of some error, `synd S r = s` holds iff `r ⊕ e`
@@ -298,6 +312,8 @@ example : finalize 2 2 false 3 [true] 1 0 (some [[false, false, false, false]]) 
     .ok { success := some false, recovery := [true], cv := [1, 0] } := by decide
 example : finalize 2 2 false 3 [true] 1 0 (some [[false, false, true, false]]) =
     .ok { success := none, recovery := [true], cv := [0, 0] } := by decide
+example : recoveryTparities 2 2 3 [[(0, 0, 0), (2, 1, 0), (2, 1, 1), (0, 0, 1)]] =
+    some { op := [false, false, false, true, false, false, true, false], x := 1, z := 1 } := by decide
 example : ftpOk [[true, false, false, true], [false, true, true, false]] [[true, false], [false, false], [false, true]]
     [true, true, false, false] = true := by decide
 
